@@ -253,4 +253,37 @@ class Sources:
                             self.aliases.setdefault(m.group(2), src_name)
 
     def impl_at(self, file: str, line: int) -> Tuple[str, Optional[str]]:
+        if file not in self.files and os.path.isabs(file) and os.path.exists(file):
+            self.files[file] = open(file).read().split("\n")      # a dependency's source (impl positions of an extra MIR dump)
         return impl_header(self.files[file], line)
+
+    def fn_generics(self, file: str, line: int, fname: str) -> List[str]:
+        """declared type-parameter names of `fn fname<...>` found after `line` in `file` (order as declared)"""
+        if file not in self.files and os.path.isabs(file) and os.path.exists(file):
+            self.files[file] = open(file).read().split("\n")
+        lines = self.files.get(file)
+        if not lines:
+            return []
+        txt = "\n".join(lines[max(0, line - 1):])
+        m = re.search(r"\bfn\s+" + re.escape(fname) + r"\s*<", txt)
+        if not m:
+            return []
+        i = m.end() - 1
+        j = match_paren(txt, i) if txt[i] == "(" else None
+        depth, k = 0, i
+        while k < len(txt):
+            if txt[k] == "<":
+                depth += 1
+            elif txt[k] == ">" and txt[k - 1] != "-":
+                depth -= 1
+                if depth == 0:
+                    break
+            k += 1
+        inner = txt[i + 1:k]
+        out = []
+        for part in split_top(inner, ","):
+            part = part.strip()
+            if not part or part.startswith("'") or part.startswith("const "):
+                continue
+            out.append(re.split(r"[:\s=]", part, 1)[0].strip())
+        return out
